@@ -402,6 +402,7 @@ class Models:
         s = I.iter_seq(args[0])
         key = kw.get("key")
         rev = kw.get("reverse", False)
+        key = self.normalise_sort_key(I, args[0], s, key)
         if hasattr(args[0], "pvc_sorted"):
             return args[0].pvc_sorted(I, key, rev)
         if hasattr(s, "pvc_sorted"):
@@ -422,6 +423,50 @@ class Models:
             return r
         # not modelled: the result may be stored but any inspection of it is unsupported
         return LazyUnsupported(f"sorted over {type(args[0]).__name__}")
+
+    def normalise_sort_key(self, I, src, s, key):
+        """`key=str` and `key=lambda item: str(item[0])` on STRING keys (or tuples led by pairwise distinct string keys) sort exactly like
+        no key at all: str(x) is x for a str, and a tie never reaches the later tuple components.  Such a key is dropped, so that the
+        keyed and the key-less spelling of the same sort are one construct for the contracts."""
+        import ast as _ast
+
+        from .symtheory import StrV
+
+        if key is None:
+            return None
+        is_str = isinstance(key, TypeV) and key.name == "str"
+        lead_str = False
+        node = getattr(key, "node", None)
+        if isinstance(node, _ast.Lambda) and len(node.args.args) == 1:
+            a = node.args.args[0].arg
+            b = node.body
+            lead_str = isinstance(b, _ast.Call) and isinstance(b.func, _ast.Name) and b.func.id == "str" and len(b.args) == 1 and isinstance(b.args[0], _ast.Subscript) and isinstance(b.args[0].value, _ast.Name) and b.args[0].value.id == a and isinstance(b.args[0].slice, _ast.Constant) and b.args[0].slice.value == 0
+        if not (is_str or lead_str):
+            return key
+
+        def is_string(v):
+            return isinstance(v, (str, StrV))
+
+        sample = None
+        try:
+            if isinstance(s, PyList):
+                sample = s.items[0] if s.items else "-"
+            elif isinstance(s, SSeq):
+                sample = s.at(z3.Int(I.path.names.fresh("sort_key_probe")))
+        except Exception:
+            sample = None
+        if sample is None:
+            # dict views of string-keyed symbolic dicts: the view knows its key sort
+            d = getattr(src, "d", None) or getattr(getattr(src, "src", None), "d", None)
+            ks = getattr(d, "key_sort", None) or getattr(d, "ksort", None)
+            from .symtheory import Str as _Str
+
+            return None if ks is not None and ks == _Str else key
+        if is_str and is_string(sample):
+            return None
+        if lead_str and isinstance(sample, tuple) and sample and is_string(sample[0]):
+            return None
+        return key
 
     def sort_by_enumerated_key(self, I, s, key, rev):
         """sorted() of a symbolic-length sequence whose element i is a string key kkey(i) of a dict (insertion-order enumeration of
